@@ -236,12 +236,14 @@ type lexer struct {
 	pos    int        // current position in the input.
 	width  int        // width of last rune read from input.
 	tokens chan token // channel of scanned tokens.
+	done   chan struct{} // closed when the client stops reading tokens.
 }
 
 func lex(input string) *lexer {
 	l := &lexer{
 		input:  input,
 		tokens: make(chan token),
+		done:   make(chan struct{}),
 	}
 
 	go l.run()
@@ -259,8 +261,22 @@ func (l *lexer) run() {
 
 // emit passes an token back to the client.
 func (l *lexer) emit(t TokenType) {
-	l.tokens <- token{t, l.start, l.current()}
+	l.send(token{t, l.start, l.current()})
 	l.start = l.pos
+}
+
+// send delivers a token unless the client has stopped reading,
+// in which case the token is dropped so that the lexer can run to completion.
+func (l *lexer) send(t token) {
+	select {
+	case l.tokens <- t:
+	case <-l.done:
+	}
+}
+
+// stop tells the lexer that no more tokens will be read.
+func (l *lexer) stop() {
+	close(l.done)
 }
 
 // nextToken returns the next token from the input.
@@ -292,7 +308,7 @@ func (l *lexer) next() (r rune) {
 // errorf returns an error token and terminates the scan by passing
 // back a nil pointer that will be the next state, terminating l.nextToken.
 func (l *lexer) errorf(format string, args ...interface{}) stateFn {
-	l.tokens <- token{TokenError, l.start, fmt.Sprintf(format, args...)}
+	l.send(token{TokenError, l.start, fmt.Sprintf(format, args...)})
 	return nil
 }
 
